@@ -1,0 +1,14 @@
+//go:build verif
+
+package websocket
+
+// VerifHook, when set by a verification driver, receives one event per
+// critical section of the hub, rooms and connections. It is called with the
+// lock protecting the changed state still held, after the change.
+var VerifHook func(name string, args ...interface{})
+
+func verifStep(name string, args ...interface{}) {
+	if h := VerifHook; h != nil {
+		h(name, args...)
+	}
+}
